@@ -101,6 +101,12 @@ type DiscoveryServer struct {
 	// pushQueue is the buffer that used after debounce and before the real xds push.
 	pushQueue *PushQueue
 
+	// pushContextMu makes "invalidate the XDS cache, then publish the new push context" (initPushContext)
+	// atomic for code that pairs the global push context with a start time read from the clock
+	// (ProxyUpdate, AdsPushAll). The XDS cache accepts a write iff its start time is not older than the
+	// last invalidation, so such a pair must never combine an already replaced context with a later time.
+	pushContextMu sync.RWMutex
+
 	// debugHandlers is the list of all the supported debug handlers.
 	debugHandlers map[string]string
 
@@ -538,8 +544,10 @@ func (s *DiscoveryServer) initPushContext(req *model.PushRequest, oldPushContext
 	push.JwtKeyResolver = s.JwtKeyResolver
 	push.InitContext(s.Env, oldPushContext, req)
 
+	s.pushContextMu.Lock()
 	s.dropCacheForRequest(req)
 	s.Env.SetPushContext(push)
+	s.pushContextMu.Unlock()
 
 	return push
 }
